@@ -1,6 +1,6 @@
 (* C06 — Rebalance brings a child to its target weight.  Statements only; proofs in Proofs/AlgoProofs.v. *)
-From Coq Require Import Reals.
-Require Import BT.Num BT.Base BT.Records BT.Engine BT.Proofs.SecInv BT.Proofs.TradeProofs BT.Proofs.AlgoProofs.
+From Coq Require Import Reals List.
+Require Import BT.Num BT.Base BT.Records BT.Engine BT.Proofs.SecInv BT.Proofs.TradeProofs BT.Proofs.AlgoProofs BT.Proofs.RotProofs.
 Local Open Scope R_scope.
 
 (* one rebalance allocation (weight - current weight) x base with base = the parent's value V, fractional
@@ -23,3 +23,14 @@ Theorem C06_closing_allocation : forall pnow comm upd (s s' : secR) oa amount,
   sec_allocate (N:=RNumI) pnow comm amount upd s = Ok (s', oa) -> s_pos s' = 0.
 Proof. exact alloc_closeout. Qed.
 Print Assumptions C06_closing_allocation.
+
+(* RebalanceOverTime feeds Rebalance the step targets  cur + (target - cur) / days_left  (Algos.v, ARebalanceOverTime);
+   when every step is reached exactly these walk from the starting weight to the target in n equal steps *)
+Theorem C06_rebalance_over_time_equal_steps_partial : forall n c w k, (k < n)%nat ->
+  nth k (rot_path c w n) 0 = c + INR (S k) * (w - c) / INR n.
+Proof. exact rot_equal_steps. Qed.
+Print Assumptions C06_rebalance_over_time_equal_steps_partial.
+
+Theorem C06_rebalance_over_time_reaches_target_partial : forall n c w, (0 < n)%nat -> nth (n - 1) (rot_path c w n) 0 = w.
+Proof. exact rot_reaches_target. Qed.
+Print Assumptions C06_rebalance_over_time_reaches_target_partial.
